@@ -41,7 +41,7 @@ FLOOR = {"quick": 15, "thorough": 80}
 def parts(tier):
     if tier == "quick":
         return [{"name": "machine", "n": 64}, {"name": "model", "n": 4000}]
-    return [{"name": "machine", "n": 1500}, {"name": "model", "n": 150000}]
+    return [{"name": "machine", "n": 1000}, {"name": "model", "n": 60000}]
 
 
 # ---- (a) ------------------------------------------------------------------------------------------------------------
